@@ -271,6 +271,20 @@ def eval_transposed(ename, tname, data):
         else:
             if back != data:
                 out.append((f"C12|{ename}|decode_transposed:{tname}:inverse", f"decode_transposed_bytes({want!r}) = {back!r}, expected {data!r}"))
+        # wrong-length input (the text of one byte more / one byte fewer than the table describes): a value error,
+        # never a silently shortened result or an internal error
+        for lbl, other in (("longer", data + b"\x00"), ("shorter", data[:-1])):
+            if not other:
+                continue
+            src = R.encode_bytes(other, alpha, big)
+            try:
+                r = eng.decode_transposed_bytes(src, offs)
+            except ValueError:
+                continue
+            except Exception as e:  # noqa: BLE001
+                out.append((f"C12|{ename}|decode_transposed:wrong_length:{lbl}:raises:{type(e).__name__}", f"decode_transposed_bytes({src!r}, table {tname}) raised {e!r}, expected ValueError"))
+            else:
+                out.append((f"C12|{ename}|decode_transposed:wrong_length:{lbl}:accepted", f"decode_transposed_bytes({src!r}, table {tname} of {len(offs)} offsets) returned {r!r} for the text of {len(other)} bytes"))
     return out
 
 
